@@ -48,8 +48,6 @@ def _in_known_region(site, text, stored):
         return True
     if region_active('c13_default_bool_word') and site == 'string_default' and _is_bool_word(stored):
         return True
-    if region_active('unicode_linebreak_reindented') and docs.has_unicode_linebreak(stored):
-        return True
     return False
 
 
@@ -253,8 +251,6 @@ def sql_expression(K):
             db2 = docs.parse(d1)
         except Exception:
             return 'expression default broke parsing or rendering'
-        if region_active('unicode_linebreak_reindented') and docs.has_unicode_linebreak(text):
-            return ''
         reached()
         r = ddl.read_or_none(sql)
         if r is None or len(r[0]) != 1 or r[0][0][0] != 'table':
